@@ -25,6 +25,9 @@ func genEditOps(r *rand.Rand, walks bool) []string {
 			ops = append(ops, fmt.Sprintf("M:%d", r.Intn(5)-2))
 		case c == 4 && !walks:
 			ops = append(ops, "R")
+		case walks && c >= 5 && r.Intn(5) == 0:
+			// the line is accepted as it is (the typed one or a history line) and the next call starts
+			ops = append(ops, "A")
 		case walks && c >= 5:
 			d := []int{1, 1, 1, -1, -1, -1, 2, -2, 5, -5}[r.Intn(10)]
 			ops = append(ops, fmt.Sprintf("W:%d", d))
@@ -82,6 +85,17 @@ func runEditOps(src []string, ops []string) string {
 				fmt.Sscanf(f[1], "%d", &d)
 				h.Save()
 				h.Walk(d)
+			case "A":
+				// accept-line, the Save of Shell.run, then Shell.init of the next call
+				h.Accept(false, false, nil)
+				h.SaveWithCommand(inputrc.Bind{Action: "accept-line"})
+				h.LineAccepted()
+				line.Set()
+				cur.Set(0)
+				cur.ResetMark()
+				h.Reset()
+				history.Init(h)
+				h.Save()
 			}
 			h.SaveWithCommand(inputrc.Bind{Action: f[0]})
 			evs = append(evs, fmt.Sprintf("%s/%d/%d", natsR([]rune(*line)), cur.Pos(), h.Pos()))
